@@ -296,15 +296,51 @@ def h_field(ctx, head, pay, field, dw, via="file"):
     return out
 
 
-def h_array(ctx, code, m):
+@lru_cache(maxsize=None)
+def logged_elements(code):
+    """elements of the logged frames of an array code (used as concrete neighbours)"""
+    n = ARRAY_ELEM[code] * 2
+    out = []
+    for (verb, c), frames in corpus().items():
+        if c != code or verb != " I":
+            continue
+        for head, pay, tail in frames:
+            if len(pay) % n == 0 and decodes_ok(head, pay, tail):
+                for i in range(0, len(pay), n):
+                    if pay[i : i + n] not in out:
+                        out.append(pay[i : i + n])
+    return out or ["00" * ARRAY_ELEM[code]]
+
+
+def array_payload(ctx_or_cex, code, m, sym_at):
+    """payload of an m-element array: all symbolic (sym_at is None) or only element sym_at"""
+    n = ARRAY_ELEM[code] * 2
+    if isinstance(ctx_or_cex, dict):
+        sym = ctx_or_cex["p"]
+    else:
+        import symx
+
+        sym = symx.sym_hex(ctx_or_cex, "p", n * m if sym_at is None else n)
+    if sym_at is None:
+        return sym
+    els = logged_elements(code)
+    parts = []
+    for i in range(m):
+        parts.append(sym if i == sym_at else f"{i:02X}" + els[i % len(els)][2:])
+    out = parts[0]
+    for x in parts[1:]:
+        out = out + x
+    return out
+
+
+def h_array(ctx, code, m, sym_at=None):
     """an m-element array decodes to the list of what each element decodes to on its own"""
-    import symx
     from ramses_tx.message import Message
     from ramses_tx.packet import Packet
 
     n = ARRAY_ELEM[code]
     src = ARRAY_SRC[code] + ":145038"
-    payload = symx.sym_hex(ctx, "p", 2 * n * m)
+    payload = array_payload(ctx, code, m, sym_at)
     head = "045  I --- " + src + " --:------ " + src + " " + code + " "
     line = head + f"{n * m:03d}" + " " + payload
     out, msg = decode_c01(ctx, line)
@@ -384,7 +420,8 @@ def concrete_line(item):
         code, m = prm["code"], prm["m"]
         n = ARRAY_ELEM[code]
         src = ARRAY_SRC[code] + ":145038"
-        return "045  I --- " + src + " --:------ " + src + " " + code + " " + f"{n * m:03d}" + " " + cex["p"], code, cex["p"]
+        pay = array_payload(cex, code, m, prm.get("sym_at"))
+        return "045  I --- " + src + " --:------ " + src + " " + code + " " + f"{n * m:03d}" + " " + pay, code, pay
     raise ValueError(h)
 
 
